@@ -59,6 +59,12 @@ class Driver(object):
       from scales.thriftmux.sink import SocketTransportSink
     world.SHIMS['thriftmux'].randint_domain = lambda a, b: [a]
     self.sink = SocketTransportSink.Builder().CreateSink({SinkProperties.Endpoint: Endpoint('h0', 1000), SinkProperties.Label: 'svc'})
+    self.sinkB = None
+    if params.get('bystander'):
+      # a second transport of the same kind, to another endpoint, alive in the same process; the faults go to the first one
+      peer_cls = peers.ThriftPeer if self.kind == 'thrift' else peers.MuxPeer
+      self.net.add_endpoint('h1', 1001, lambda net, c: peer_cls(net, c, H.Processor, peers.EchoHandler, self.server_log))
+      self.sinkB = SocketTransportSink.Builder().CreateSink({SinkProperties.Endpoint: Endpoint('h1', 1001), SinkProperties.Label: 'svc'})
     self.term = stubs.make_terminal_class()()
     self.reqs = {}
     self.faults_notified = []
@@ -114,22 +120,24 @@ class Driver(object):
     return ('ping%d' % npings) in self.withheld
 
   # ---- script actions ------------------------------------------------------------------------------------------------
-  def do_open(self):
+  def do_open(self, sink=None):
     import gevent
     box = {}
+    sink = sink or self.sink
 
     def opener():
       try:
-        ar = self.sink.Open()
+        ar = sink.Open()
         box['ar'] = ar
         ar.get()
         box['ok'] = True
       except BaseException as e:  # noqa
         box['exc'] = e
     box['g'] = gevent.spawn(opener)
-    self.open_results.append(box)
+    if sink is self.sink:
+      self.open_results.append(box)
 
-  def do_request(self, name, deadline=None):
+  def do_request(self, name, deadline=None, sink=None):
     from scales.compat import BytesIO
     from scales.constants import TransportHeaders
     from scales.message import MethodCallMessage, Deadline
@@ -145,6 +153,7 @@ class Driver(object):
       def AsyncProcessResponse(self2, stream, msg):
         self2.completions += 1
         ClientMessageSinkStack.AsyncProcessResponse(self2, stream, msg)
+    sink = sink or self.sink
     stack = CountingStack()
     stack.Push(self.term, name)
     payload = thrift_payload(arg)
@@ -157,7 +166,7 @@ class Driver(object):
         msg.properties[Deadline.KEY] = self.lp.now() + deadline
       buf = BytesIO()
       buf.write(payload)
-      self.sink.AsyncProcessRequest(stack, msg, buf, headers)
+      sink.AsyncProcessRequest(stack, msg, buf, headers)
     else:
       if deadline is not None:
         evt = Observable()
@@ -170,7 +179,7 @@ class Driver(object):
       headers[TransportHeaders.MessageType] = 2
       import gevent
       # the mux transport may block in AsyncProcessRequest while it is still opening
-      gevent.spawn(self.sink.AsyncProcessRequest, stack, msg, buf, headers)
+      gevent.spawn(sink.AsyncProcessRequest, stack, msg, buf, headers)
 
   def fire_mux_timeouts(self):
     """What ClientTimeoutSink does above a mux transport: set the deadline event, drain the stack with TimeoutError."""
@@ -183,13 +192,21 @@ class Driver(object):
         r['stack'].AsyncProcessResponseMessage(MethodReturnMessage(error=TimeoutError()))
 
   def _conn_faulted(self):
-    return bool(self.net.fault_log) or any(c.stalled for c in self.net.conns)
+    return bool(self._fault_log()) or any(c.stalled for c in self._conns())
+
+  def _conns(self, port=1000):
+    return [c for c in self.net.conns if c.addr[1] == port]
+
+  def _fault_log(self, port=1000):
+    return [f for f in self.net.fault_log if f[1][1] == port]
 
   # ---- the script ------------------------------------------------------------------------------------------------------------
   def run(self):
     p = self.p
     T0 = vloop.EPOCH
     self.do_open()
+    if self.sinkB is not None:
+      self.do_open(self.sinkB)
     if not p.get('early'):
       self.run_until(T0 + 0.05)
     t = 0.05
@@ -223,8 +240,9 @@ class Driver(object):
     from scales.message import MethodCallMessage
     sink = self.sink
     now = self.lp.now()
-    faulted = bool(self.net.fault_log)          # some client I/O observed a fault (raised / EOF / refused)
-    silent = any(c.stalled for c in self.net.conns)
+    fault_log = self._fault_log()
+    faulted = bool(fault_log)          # some client I/O observed a fault (raised / EOF / refused)
+    silent = any(c.stalled for c in self._conns())
     for name, r in sorted(self.reqs.items()):
       rs = self.responses(name)
       if len(rs) > 1:
@@ -233,12 +251,12 @@ class Driver(object):
         self.v('C08.answered-twice', 'the transport completed request %s %d times (first: %s)'
                % (name, r['stack'].completions - (1 if r['timed_out'] else 0), [self._desc(x) for x in rs]))
     state = sink.state
-    live = [c for c in self.net.conns if c.state == 'established' and not c.client_closed]
+    live = [c for c in self._conns() if c.state == 'established' and not c.client_closed]
     usable = [c for c in live if not c.reset and not c.eof and not c.stalled]
-    in_flight = [n for n, r in self.reqs.items() if not self.responses(n)]
+    in_flight = [n for n, r in self.reqs.items() if not self.responses(n) and not n.startswith('b')]
     if faulted and not self.closed_by_us:
       # a fault was observed by the transport's own I/O; unless it reconnected successfully afterwards it must be closed
-      reconnected = bool(usable) and usable[-1].established_at is not None and usable[-1].established_at >= self.net.fault_log[-1][0]
+      reconnected = bool(usable) and usable[-1].established_at is not None and usable[-1].established_at >= fault_log[-1][0]
       if not reconnected:
         if state != ChannelState.Closed:
           self.v('C08.not-closed', 'connection failed (%s) but the transport reports state %s' % (self._faults(), state),
@@ -285,6 +303,25 @@ class Driver(object):
           if not good:
             self.v('C08.probe-failed', 'transport reported Open and idle (%s) but a fresh request got %s'
                    % (self._faults(), [self._desc(x) for x in rs] or 'no answer'), transport=self.kind)
+    # ---- the bystander transport: nothing happened to its connection, so it must be unaffected
+    if self.sinkB is not None:
+      connsB = self._conns(1001)
+      untouched = connsB and not self._fault_log(1001) and not any(c.stalled or c.reset or c.eof for c in connsB)
+      if untouched:
+        if self.sinkB.state != ChannelState.Open:
+          self.v('C08.bystander', 'a transport to another endpoint, whose own connection is healthy, reports state %s after the first '
+                 'transport\'s connection failed (%s)' % (self.sinkB.state, self._faults()), transport=self.kind)
+        else:
+          self.withheld = set()
+          self.net.io_faults = dict((i, k) for i, k in self.net.io_faults.items() if i < self.net.io_count)
+          self.do_request('bprobe', sink=self.sinkB)
+          self.run_until(self.lp.now() + 0.5)
+          rs = self.responses('bprobe')
+          good = bool(rs) and rs[0][2] is not None and b'echo:arg-bprobe' in bytes(rs[0][2].getvalue())
+          if not good:
+            self.v('C08.bystander', 'a transport to another endpoint, whose own connection is healthy and which reports Open, got %s '
+                   'for a fresh request after the first transport\'s connection failed (%s)'
+                   % ([self._desc(x) for x in rs] or 'no answer', self._faults()), transport=self.kind)
     errs = [e for e in self.lp.errors if 'GreenletExit' not in e[1]]
     self.greenlet_errors = [(e[1], e[2][:80]) for e in errs[:4]]
 
@@ -362,6 +399,13 @@ def scripts():
   out.append(('mux peer stops answering pings with requests in flight',
               {'transport': 'mux', 'withhold': ['ping2', 'r2', 'r3'],
                'script': [['req', 'r1'], ['wait', 29.0], ['req', 'r2'], ['req', 'r3', 0.5025], ['wait', 8.0, 0.5]]}))
+  # two transports alive in one process; only the first one's connection is disturbed
+  out.append(('mux, second transport to another endpoint stays healthy',
+              {'transport': 'mux', 'withhold': [], 'bystander': True,
+               'script': [['req', 'r1'], ['req', 'r2', 0.2025], ['wait', 0.5, 0.05], ['req', 'r3'], ['wait', 0.3, 0.05]]}))
+  out.append(('thrift, second transport to another endpoint stays healthy',
+              {'transport': 'thrift', 'withhold': [], 'bystander': True,
+               'script': [['req', 'r1', 0.2025], ['wait', 0.5, 0.05], ['req', 'r2'], ['wait', 0.3, 0.05]]}))
   return out
 
 
